@@ -20,7 +20,7 @@ ASSUMPTIONS = ['counts and HL/LX numbers that Python int() accepts but are not c
                'every ISA generated has 16 elements (a shorter ISA is a documented refusal, C07)']
 REQUIRED_COUNTERS = ['proper', 'improper', 'exp:isa:025', 'exp:gs:6', 'exp:st:23', 'exp:st:3', 'exp:st:4', 'exp:gs:4', 'exp:gs:5', 'exp:isa:001',
                      'exp:isa:021', 'exp:eof:st:2', 'exp:eof:gs:3', 'exp:eof:isa:023', 'exp:seg:HL1', 'exp:seg:HL2', 'exp:seg:LX',
-                     'proper-clean', 'segments-fed', 'envelope-soups']
+                     'proper-clean', 'segments-fed', 'envelope-soups', 'headers-without-control-number']
 MIN_CASES = {'quick': 15000, 'thorough': 2000000}
 
 CTL = {'isa': ['000000001', '000000002', '000000003'], 'gs': ['1', '2', '3'], 'st': ['0001', '0002', '0003']}
@@ -34,6 +34,13 @@ def count_text(rng, true):
     return [rng.choice([str(true + 1), str(max(true - 1, 0)), '0', 'X', '', '1A', None, str(true), '99999'])]
 
 
+_COUNTS = {}
+
+
+def ctx_count(k):
+    _COUNTS[k] = _COUNTS.get(k, 0) + 1
+
+
 def gen_proper(rng):
     segs = []
     for _ in range(rng.randint(1, 3)):
@@ -43,12 +50,16 @@ def gen_proper(rng):
         ngs = 0
         for _ in range(rng.randint(0, 3)):
             gs = rng.choice(CTL['gs'])
-            segs.append(('GS', ['HC', 'A', 'B', '20040608', '1333', gs, 'X', '004010X098A1']))
+            if rng.random() < 0.04:
+                gs = None                          # GS cut off after GS05
+            segs.append(('GS', ['HC', 'A', 'B', '20040608', '1333', gs, 'X', '004010X098A1'] if gs is not None else ['HC', 'A', 'B', '20040608', '1333']))
             ngs += 1
             nst = 0
             for _ in range(rng.randint(0, 3)):
                 st = rng.choice(CTL['st'])
-                segs.append(('ST', ['837', st]))
+                if rng.random() < 0.04:
+                    st = None                      # the header carries no control number element at all ('ST*837'); a trailer without one is then consistent
+                segs.append(('ST', ['837', st] if st is not None else ['837']))
                 nst += 1
                 n = 1
                 hl = 0
@@ -78,10 +89,14 @@ def gen_proper(rng):
                     n += 1
                 n += 1
                 se_id = st if rng.random() < 0.8 else rng.choice(['0009', '', None])
+                if st is None:
+                    ctx_count('headers-without-control-number')
                 cnt = count_text(rng, n)[0]
                 e = [] if cnt is None else ([cnt] if se_id is None else [cnt, se_id])
                 segs.append(('SE', e))
             ge_id = gs if rng.random() < 0.8 else rng.choice(['9', '', None])
+            if gs is None:
+                ctx_count('headers-without-control-number')
             cnt = count_text(rng, nst)[0]
             e = [] if cnt is None else ([cnt] if ge_id is None else [cnt, ge_id])
             segs.append(('GE', e))
@@ -257,6 +272,8 @@ def run(ctx):
         if s:
             sigs.add('%08x' % zlib.crc32(s.encode()))
         ctx.sample({'text': RE.render(segs)[:800], 'meta': meta})
+    for k_, v_ in _COUNTS.items():
+        ctx.count(k_, v_)
     ctx.case(n=per + (len(DIRECTED) if ctx.shard == 0 else 0), sigs=sorted(sigs))
 
 
